@@ -57,6 +57,13 @@ def main(c):
             d = rnd.randint(1, 64)
             o = rnd.choice(["[", "{\"a\":", "{\"a\":["])
             codec.append("jf %s %s" % (hx("b"), hx('{"a":' + o * d + rnd.choice(["", "1", "]" * d, "}" * (d // 2)]) + rnd.choice(["", ',"b":1}', "}"]))))
+        elif k == "escape" and rnd.random() < 0.4:
+            # a member name that begins with the whole key and goes on with a raw NUL byte (or the key's own terminator position hit by
+            # other bytes): the key string must not be read past its end
+            key = rnd.choice(["a", "id", "foo", "k"])
+            name = key + rnd.choice(["\x00", "\x00secret", "\x00\x00", "\\u0000", "\x00\""])
+            doc = rnd.choice(['{"%s":1,"%s":2}', '{"x":0,"%s":{"%s":3}}', '{"%s":"v"}%s']) % (name, key)
+            codec.append("jf %s %s" % (hx(key), hx(doc)))
         elif k == "escape":
             codec.append("jf %s %s" % (hx(rnd.choice(["a", "b"])), hx('{"a":"x' + rnd.choice(["\\", "\\u", "\\u1", "\\u12", "\\u123", "\\\"", "\\\\"]) + rnd.choice(["", '"', '","b":']))))
         elif k == "jmut":
